@@ -165,6 +165,9 @@ func c01Bolt(run *Run, cd *codecDef, v2engine bool) {
 				rep["got_hex"] = Hex(clip(out, 2048))
 				run.Fail(cd.Name+":forwarded-frame-not-identical:"+how, fmt.Sprintf("%s: Decode, SetRequestId, Encode (%s) does not return the received frame with only the id replaced (err=%v panic=%v)", cd.Name, how, eerr, epan), rep)
 			}
+			if eerr == nil && epan == nil {
+				checkEmitted(run, cd.Name, out, nil, rep, "id-only:"+how)
+			}
 			if variant != 1 {
 				add(in, []opRec{{Kind: "id", ID: id}}, out, eerr != nil, rep)
 			}
@@ -209,11 +212,21 @@ func c01Bolt(run *Run, cd *codecDef, v2engine bool) {
 			_ = inPlaceSame
 			reqid := uint32(xf.GetRequestId())
 			nops := 1 + r.Intn(5)
-			scriptKind := r.Intn(6)
+			scriptKind := r.Intn(9)
+			if s == 0 {
+				scriptKind = 6 + i%3 // every frame: one script around the scratch / pool buffer boundaries
+			}
+			overhead := len(in) - len(content0)
 			for k := 0; k < nops; k++ {
 				choice := r.Intn(8)
 				if scriptKind == 0 && k == 0 && len(ref) > 0 {
 					choice = 100 // Del(existing) then Set(new, longer key)
+				}
+				if k == 0 && (scriptKind == 6 || scriptKind == 7) {
+					choice = 7 // SetData: the re-encoded frame / its body around 1024, 4096, 65536 ...
+				}
+				if k == 0 && scriptKind == 8 {
+					choice = 3 // header mutation that forces the re-encode, header block around the boundaries
 				}
 				switch {
 				case choice == 100:
@@ -244,6 +257,13 @@ func c01Bolt(run *Run, cd *codecDef, v2engine bool) {
 					nk, nv := "n"+randName(r, r.Intn(12)), randName(r, pickLen(r, false))
 					if scriptKind == 1 && k == 0 {
 						nv = randName(r, r.Pick([]int{65535, 65536, 70000, 65535 - 8 - len(nk)}))
+					}
+					if scriptKind == 8 && k == 0 {
+						n := boundaryTotal(r) - overhead - 8 - len(nk)
+						if n < 0 || n > 60000 {
+							n = 1024 - 8 - len(nk) + r.Intn(3) - 1
+						}
+						nv = string(runBytes(r, n, true))
 					}
 					xf.GetHeader().Set(nk, nv)
 					refSet(nk, nv)
@@ -291,13 +311,17 @@ func c01Bolt(run *Run, cd *codecDef, v2engine bool) {
 					} else {
 						d = r.Bytes(nl)
 					}
+					if (scriptKind == 6 || scriptKind == 7) && k == 0 {
+						d = boundaryBody(r, overhead)
+						nl = len(d)
+					}
 					xf.SetData(buffer.NewIoBufferBytes(d))
 					body = d
 					ops = append(ops, opRec{Kind: "data", N: nl, data: d})
 					changed = true
 				}
 			}
-			out, eerr, epan := safeEncode(cd.Proto, f)
+			out, moved, eerr, epan := encodeChurn(cd.Proto, f)
 			hdrLen := 0
 			for _, p := range ref {
 				hdrLen += 8 + len(p.k) + len(p.v)
@@ -305,6 +329,16 @@ func c01Bolt(run *Run, cd *codecDef, v2engine bool) {
 			representable := len(class) <= 65535 && hdrLen <= 65535 && uint64(len(body)) <= 0xffffffff
 			rep := map[string]interface{}{"codec": cd.Name, "script": ops, "frame": vf.Desc, "input_hex": Hex(clip(in, 2048)), "intended_header_len": hdrLen, "intended_body_len": len(body)}
 			run.Count(fmt.Sprintf("%s|mod|%d|%d", cd.Name, i, s), changed, cd.Name+":modify", fmt.Sprintf("%s:script=%d", cd.Name, scriptKind))
+			if moved {
+				run.Fail(cd.Name+":emitted-bytes-change-after-pool-allocation", cd.Name+": the buffer returned by Encode changed when later buffers were taken from the pools and written", rep)
+			}
+			if eerr == nil && epan == nil {
+				var want *[3]int
+				if changed && representable {
+					want = &[3]int{len(class), hdrLen, len(body)}
+				}
+				checkEmitted(run, cd.Name, out, want, rep, "modification script")
+			}
 			switch {
 			case epan != nil:
 				run.Fail(cd.Name+":encode-panic", fmt.Sprintf("%s Encode panicked: %v", cd.Name, epan), rep)
@@ -406,23 +440,16 @@ func c01X(run *Run, cd *codecDef) {
 			}
 			var newBody []byte
 			if variant == 3 {
-				switch cd.Name {
-				case "dubbo":
-					if in[2]&0x80 != 0 && in[2]&0x20 == 0 {
-						newBody = dubboReqPayload("2.0.2", "com.y."+randName(r, 5), "1.0.0", randName(r, 6), r.Bytes(r.Pick([]int{0, 1, 255, 256, 1000})))
-					} else {
-						newBody = r.Bytes(r.Pick([]int{0, 1, 255, 256, 1000}))
-					}
-				case "dubbo-thrift":
-					// a payload must start with a TBinary message begin: take it from another generated frame
-					o := genThrift(r, false).Bytes
-					newBody = o[4+int(binary.BigEndian.Uint16(o[10:12])):]
-				default:
+				if cd.Name == "tars" {
 					continue
 				}
+				newBody = newBodyFor(r, cd.Name, in)
 				xf.SetData(buffer.NewIoBufferBytes(newBody))
 			}
-			out, eerr, epan := safeEncode(cd.Proto, f)
+			out, moved, eerr, epan := encodeChurn(cd.Proto, f)
+			if moved {
+				run.Fail(cd.Name+":emitted-bytes-change-after-pool-allocation", cd.Name+": the buffer returned by Encode changed when later buffers were taken from the pools and written", rep)
+			}
 			if variant == 2 {
 				out2, _, _ := safeEncode(cd.Proto, f)
 				if !bytes.Equal(out, out2) {
@@ -440,6 +467,7 @@ func c01X(run *Run, cd *codecDef) {
 				continue
 			}
 			// the property on the real code
+			checkEmitted(run, cd.Name, out, nil, rep, how)
 			g, _, derr, dpan := decodeFresh(cd.Proto, out)
 			switch {
 			case g == nil || derr != nil || dpan != nil:
@@ -473,33 +501,40 @@ func c01X(run *Run, cd *codecDef) {
 			if cd.Name == "dubbo-thrift" && variant == 3 {
 				svc, _ := xf.GetHeader().Get("service")
 				lib := thriftWhdr(svc, xf.GetRequestId())
-				slowSh.Add(fmt.Sprintf("(%s, %s, %s)", CoqBytes(lib), CoqBytes(newBody), CoqBytes(out)), rep)
+				// the FULL emitted bytes against the model's bytes (the new body printed once)
+				ob := CoqBytes(out)
+				if len(out) >= len(newBody) && bytes.Equal(out[len(out)-len(newBody):], newBody) {
+					ob = "(" + CoqBytes(out[:len(out)-len(newBody)]) + " ++ b)"
+				}
+				if len(newBody) <= 3000 || run.Thorough() || r.Pct(40) {
+					slowSh.Add(letB(newBody, fmt.Sprintf("(%s, b, %s)", CoqBytes(lib), ob)), rep)
+				}
 				continue
 			}
 			if cd.Name == "tars" {
-				if len(out) < 4 || int(binary.BigEndian.Uint32(out)) != len(out) {
-					run.Fail("tars:length-prefix-inconsistent", "tars Encode wrote a length prefix that is not the frame length", rep)
-				}
 				continue
 			}
 			if variant == 1 {
 				continue
 			}
-			if (len(in) > 20000 && r.Pct(run.N(85, 50))) || (!run.Thorough() && len(in) > 3000 && r.Pct(50)) {
+			if (len(in)+len(newBody) > 20000 && r.Pct(run.N(85, 50))) || (!run.Thorough() && len(in)+len(newBody) > 3000 && r.Pct(50)) {
 				continue
 			}
 			sd := "None"
-			if variant == 3 {
-				sd = "(Some " + CoqBytes(newBody) + ")"
-			}
 			rp := &relPrinter{in}
 			ob := CoqBytes(out)
-			if variant == 3 && len(out) > len(newBody) {
-				ob = "(" + CoqBytes(out[:len(out)-len(newBody)]) + " ++ " + CoqBytes(newBody) + ")"
+			if variant == 3 {
+				sd = "(Some nb)"
+				if len(out) > len(newBody) && bytes.Equal(out[len(out)-len(newBody):], newBody) {
+					ob = "(" + CoqBytes(out[:len(out)-len(newBody)]) + " ++ nb)"
+				}
 			} else if bytes.Equal(out[16:], in[16:]) {
 				ob = "(" + CoqBytes(out[:16]) + " ++ " + rp.B(in[16:]) + ")"
 			}
 			term := letB(in, fmt.Sprintf("(%s, b, %d, %s, %s)", xcodecTerm(cd.Name, in), id, sd, ob))
+			if variant == 3 {
+				term = "(let nb := " + CoqBytes(newBody) + " in " + term + ")"
+			}
 			sh.Add(term, rep)
 			shBytes += len(term)
 			if sh.Len() >= 200 || shBytes > 110000 {
@@ -531,7 +566,7 @@ func wantIDPatched(codec string, in []byte, id, oldID uint64) []byte {
 
 func c01(args []string) int {
 	run := NewRun("C01", args)
-	run.Sum.Rule = "per codec: structured valid frames (generator of C08: field values over their width, lengths incl. 0, 255/256, 65535/65536, 0..40 header pairs, binary bodies) x scripts: SetRequestId only {plain, read buffer overwritten after Decode, Encode twice}; bolt/boltv2 modification scripts of 1-5 ops {Set existing key with shorter/equal/longer value, Set new key, Del existing, Del missing, Del(k) then Set(longer new key), SetData with 0/65535/65536/65537/random bytes, Set pushing the header block over 65535}; dubbo / dubbo-thrift SetData; each through the REAL Decode, setters and Encode, then re-decoded. Non-trivial = a script that changes the frame or variant other than plain; distinct by (codec, frame, script)."
+	run.Sum.Rule = "per codec: structured valid frames (generator of C08: field values over their width, lengths incl. 0, 255/256, 65535/65536, 0..40 header pairs, binary bodies) x scripts: SetRequestId only {plain, read buffer overwritten after Decode, Encode twice}; bolt/boltv2 modification scripts of 1-5 ops {Set existing key with shorter/equal/longer value, Set new key, Del existing, Del missing, Del(k) then Set(longer new key), SetData with 0/65535/65536/65537/random bytes, Set pushing the header block over 65535}; dubbo / dubbo-thrift SetData; replacement bodies / header values that put the re-encoded frame on both sides of 1024, 2048, 4096, 8192, 65536; locally built frames (hijack replies with and without SetData, heartbeats, NewRpcRequest/Response); each through the REAL Decode, setters and Encode, every length field of every emitted frame evaluated by an independent field parser, then re-decoded. Non-trivial = a script that changes the frame or variant other than plain; distinct by (codec, frame, script)."
 	defs := codecDefs()
 	for _, cd := range defs {
 		switch cd.Name {
@@ -542,6 +577,7 @@ func c01(args []string) int {
 		default:
 			c01X(run, cd)
 		}
+		c01Local(run, cd)
 	}
 	c01Premises(run)
 	return run.Finish()
@@ -678,19 +714,44 @@ func c01Premises(run *Run) {
 	}
 }
 
-// newBodyFor: a replacement body that the codec can decode again
+// newBodyFor: a replacement body that the codec can decode again; more than half of them make the re-encoded frame land on
+// either side of 1024 / 4096 / 65536 ... bytes (scratch and pool buffer sizes inside the encoders)
 func newBodyFor(r *Rng, codec string, in []byte) []byte {
+	small := r.Pick([]int{0, 1, 3, 255, 256, 1000})
+	boundary := r.Pct(60)
 	switch codec {
 	case "dubbo":
 		if in[2]&0x80 != 0 && in[2]&0x20 == 0 {
-			return dubboReqPayload("2.0.2", "com.y."+randName(r, 5), "1.0.0", randName(r, 6), r.Bytes(r.Pick([]int{0, 1, 255, 256, 1000})))
+			pre := dubboReqPayload("2.0.2", "com.y."+randName(r, 5), "1.0.0", randName(r, 6), nil)
+			if boundary {
+				return cat(pre, boundaryBody(r, 16+len(pre)))
+			}
+			return cat(pre, r.Bytes(small))
 		}
-		return r.Bytes(r.Pick([]int{0, 1, 255, 256, 1000}))
+		if boundary {
+			return boundaryBody(r, 16)
+		}
+		return r.Bytes(small)
 	case "dubbo-thrift":
+		// a payload must start with a TBinary message begin
+		if boundary {
+			method := randName(r, r.Pick([]int{0, 1, 10}))
+			mtype := byte(r.Pick([]int{1, 1, 2, 3, 4}))
+			pre := cat([]byte{0x80, 0x01, 0x00, mtype}, be32(uint32(len(method))), []byte(method), be32(uint32(r.U64())))
+			hl := int(binary.BigEndian.Uint16(in[10:12]))
+			return cat(pre, boundaryBody(r, hl+len(pre)))
+		}
 		o := genThrift(r, false).Bytes
 		return o[4+int(binary.BigEndian.Uint16(o[10:12])):]
 	}
-	return r.Bytes(r.Pick([]int{0, 1, 3, 255, 256, 1000}))
+	if boundary { // bolt, boltv2: fixed part + class + header block stay
+		ov := 0
+		if fixed, off, ok := boltFixed(in); ok && len(in) >= fixed {
+			ov = fixed + int(binary.BigEndian.Uint16(in[off:])) + int(binary.BigEndian.Uint16(in[off+2:]))
+		}
+		return boundaryBody(r, ov)
+	}
+	return r.Bytes(small)
 }
 
 // c01CloneAndInPlace (dubbo, dubbo-thrift: Frame.Clone returns a frame):
